@@ -31,8 +31,13 @@ func init() {
 			chain = append(chain, &certurl.AugmentedCertificate{
 				Cert: &x509.Certificate{Raw: it.L[0].B}, OCSPResponse: optB(it.L[1]), SCTList: optB(it.L[2])})
 		}
-		var buf bytes.Buffer
-		if err := chain.Write(&buf); err != nil {
+		var first, buf bytes.Buffer
+		err0 := chain.Write(&first) // written twice: both writes must agree
+		err := chain.Write(&buf)
+		if (err0 == nil) != (err == nil) || (err == nil && !bytes.Equal(first.Bytes(), buf.Bytes())) {
+			return L(Sym("second_write_differs"))
+		}
+		if err != nil {
 			return ErrV()
 		}
 		return OkV(B(buf.Bytes()))
